@@ -1,6 +1,7 @@
 package main
 
 import (
+	"bytes"
 	"encoding/hex"
 	"fmt"
 	"math/big"
@@ -16,6 +17,18 @@ type Gen struct {
 	// hashed before (ops setu/appu/chgu); chosen by a counter so that the random stream is unaffected
 	unhashed bool
 	nIns     int
+	// zHist: every third history of the family runs under the zero-prefixed pair hash ("begin z")
+	zHist  bool
+	nBegin int
+}
+
+// beginLine opens a history.
+func (g *Gen) beginLine() string {
+	g.nBegin++
+	if g.zHist && g.nBegin%3 == 0 {
+		return "begin z"
+	}
+	return "begin"
 }
 
 // insOp returns the op name for inserting a value: name, or name+"u" for an unhashed insert.
@@ -306,4 +319,32 @@ func unhex(s string) []byte {
 		panic(err)
 	}
 	return b
+}
+
+// retainCheck: results of library calls that return a byte slice are kept (by reference) until
+// the next such call; a result must stay what it was when it was handed out.  Returns the token
+// to append to the observation ("" when all is well).
+var retainedBuf, retainedCopy, retainPending [][]byte
+
+// retainNote registers a byte slice returned by the library during the current op.
+func retainNote(b []byte) []byte {
+	if len(b) > 0 {
+		retainPending = append(retainPending, b)
+	}
+	return b
+}
+
+func retainCheck(cur ...[]byte) string {
+	msg := ""
+	for i := range retainedBuf {
+		if !bytes.Equal(retainedBuf[i], retainedCopy[i]) {
+			msg = " earlier-result-overwritten"
+		}
+	}
+	retainedBuf, retainedCopy = nil, nil
+	for _, c := range cur {
+		retainedBuf = append(retainedBuf, c)
+		retainedCopy = append(retainedCopy, append([]byte(nil), c...))
+	}
+	return msg
 }
